@@ -28,15 +28,17 @@ TECHNIQUE = "Lean 4 proof (induction over sites; Mathlib real analysis on regene
 LEAN_MODULES = ["Gv.Props.C07"]
 REQUIRED_THEOREMS = ["Gv.Props.C07." + n for n in [
     "countDiffs_symmetric", "countDiffsWithGaps_symmetric", "countMutations_symmetric",
-    "countDiffsWithInternalGaps_symmetric", "counters_zero_on_equal_rows", "countMutations_zero_on_equal_rows",
+    "countDiffsWithInternalGaps_symmetric_of_max_comm", "countDiffsWithInternalGaps_symmetric",
+    "counters_zero_on_equal_rows", "countMutations_zero_on_equal_rows", "internalGaps_zero_on_equal_rows",
     "selectedSites_spec", "weights_nil_eq_unit", "matrix_symmetric", "matrix_diag_zero",
     "jc_eq_published", "jc_gamma_eq_published", "k2p_eq_published", "k2p_gamma_eq_published",
     "f81_eq_published", "f81_gamma_eq_published", "f84_eq_published", "f84_gamma_eq_published",
     "tn93_eq_published", "tn93_gamma_eq_published",
-    "jc_ge_pdist", "k2p_ge_pdist", "f81_ge_pdist",
+    "jc_ge_pdist", "k2p_ge_pdist", "f81_ge_pdist", "f84_ge_pdist", "tn93_ge_pdist",
     "estimator_zero_of_no_difference",
+    "safe_pinf", "not_safe_zero",
     "jc_undefined_never_small_or_witness", "f81_undefined_never_small_or_witness",
-    "undefined_never_small_matrix",
+    "undefined_never_small_matrix", "substitute_repaired_pos_or_nan", "substitute_asIs_zero_witness",
 ]]
 PARTIAL = [
     "float64 rounding, overflow and the last-ulp behaviour of math.Log / math.Pow are not modelled: the real-valued theorems are about the regenerated formulas over R, the run compares Go and Lean Float with relative tolerance 1e-9 (raw and p-distance bit-exact)",
@@ -66,6 +68,7 @@ KNOWN_BY_CLAUSE = {
     "fail:undefined-as-zero-substitute": "c07-substitute-zero",
     "fail:formula-internal-gaps-ignore-selection": "c07-internal-gaps-ignore-selection",
     "fail:formula-freq-over-all-cells": "c07-freq-over-all-cells",
+    "fail:rounding-negative-substituted": "c07-rounding-negative-substituted",
 }
 
 
@@ -200,13 +203,13 @@ def rand_options(rng, rows, model=None):
 
 
 # minimal witnesses of the departures recorded in known_findings.jsonl, and of their repaired behaviour;
-# also used to tell which version of the source the run saw
+# also used to tell which version of the source the run saw (row names p0.. keep them distinct from the corpus)
 PROBES = [
-    ("nan-clamp", ["jc", 0, 0, 0, 0, "1", "_", "-1,-1,-1,-1", "s0:AAAA,s1:AAAC,s2:CCCC"], (0, 2)),
-    ("gamma-negative-base", ["k2p", 0, 0, 0, 1, "1/2", "_", "-1,-1,-1,-1", "s0:AAAA,s1:AAAG,s2:GGGG"], (0, 2)),
-    ("substitute-zero", ["k2p", 0, 0, 0, 0, "1", "_", "-1,-1,-1,-1", "s0:AAAA,s1:GGGG"], (0, 1)),
-    ("internal-gaps-ignore-selection", ["rawdist", 1, 1, 0, 0, "1", "_", "-1,-1,-1,-1", "s0:AC-GT,s1:ACAGT,s2:ACAGT"], (0, 1)),
-    ("freq-over-all-cells", ["f81", 0, 0, 0, 0, "1", "_", "-1,-1,-1,-1", "s0:ACGT-,s1:ACGA-"], (0, 1)),
+    ("nan-clamp", ["jc", 0, 0, 0, 0, "1", "_", "-1,-1,-1,-1", "p0:AAAA,p1:AAAC,p2:CCCC"], (0, 2)),
+    ("gamma-negative-base", ["k2p", 0, 0, 0, 1, "1/2", "_", "-1,-1,-1,-1", "p0:AAAA,p1:AAAG,p2:GGGG"], (0, 2)),
+    ("substitute-zero", ["k2p", 0, 0, 0, 0, "1", "_", "-1,-1,-1,-1", "p0:AAGG,p1:GGGG"], (0, 1)),
+    ("internal-gaps-ignore-selection", ["rawdist", 1, 1, 0, 0, "1", "_", "-1,-1,-1,-1", "p0:AC-GT,p1:ACAGT,p2:ACAGT"], (0, 1)),
+    ("freq-over-all-cells", ["f81", 0, 0, 0, 0, "1", "_", "-1,-1,-1,-1", "p0:ACGTACGT-,p1:ACGTTCGA-"], (0, 1)),
 ]
 _probe_cases = []
 
